@@ -36,6 +36,8 @@ def step (regs : List (List Byte)) (qs : List Queue) : Op → List Queue
   | .prependData v d => qs.set v (bytesOf d ++ get qs v)
   | .prependBuf v w => qs.set v (get qs w ++ get qs v)
   | .prependSub v off len => qs.set v (((get qs v).drop off).take len ++ get qs v)
+  | .appendSub v off len => qs.set v (get qs v ++ ((get qs v).drop off).take len)
+  | .assignSub v off len => qs.set v (((get qs v).drop off).take len)
   | .appendData v d => qs.set v (get qs v ++ bytesOf d)
   | .appendBuf v w => qs.set v (get qs v ++ get qs w)
   | .resize v n => qs.set v (resize (get qs v) n)
@@ -72,6 +74,8 @@ def WFOp (nvars : Nat) (regs : List (List Byte)) : Op → Prop
   | .prependData v _ => v < nvars
   | .prependBuf v w => v < nvars ∧ w < nvars
   | .prependSub v _ _ => v < nvars
+  | .appendSub v _ _ => v < nvars
+  | .assignSub v _ _ => v < nvars
   | .appendData v _ => v < nvars
   | .appendBuf v w => v < nvars ∧ w < nvars
   | .resize v _ => v < nvars
